@@ -12,7 +12,7 @@ package main
 //	                                                                  (abstract workload, status and pods of suite ctlsts)
 //	bg      blue-green Deployment / CloneSet + ReplicaSets + HPAs     (abstract world of suite ctlbluegreen + status)
 //	canary  canary-style Deployment: stable + canary Deployments      (abstract world of suite ctlcanary + expectation)
-//	rs      apps/v1 ReplicaSet as workload reference
+//	rs      apps/v1 ReplicaSet as workload reference (no control plane serves it: refused)
 //	none    an unsupported group/kind
 //
 // Output: the BatchRelease afterwards (finalizer, abstract status), the world afterwards, requeue / error — or "panic".
@@ -1010,8 +1010,8 @@ func exxGenUnsupported(c *Ctx) *exxIn {
 	return in
 }
 
-// exxGenForeign: a CloneSet / Deployment / DaemonSet under a style no arm of getReleaseController serves for it: the
-// StatefulSet-like control is built for it (finding stsPlaneForeignKind)
+// exxGenForeign: a CloneSet / Deployment / DaemonSet under a style no arm of getReleaseController serves for it: refused like
+// an unsupported workload (before the repair of finding stsPlaneForeignKind the StatefulSet-like control was built for it and panicked)
 func exxGenForeign(c *Ctx) *exxIn {
 	var in *exxIn
 	switch c.Rng.Intn(3) {
